@@ -162,7 +162,7 @@ type lockEdge struct {
 	Fn         *ssa.Function
 	Pos        token.Pos
 	Via        string
-	Root       string // entry point of the calling context
+	Root       string  // entry point of the calling context
 	Held       lockset // locks held (must, over all recordings) when To is acquired
 }
 
@@ -373,7 +373,7 @@ func (la *LockAnalysis) ctxFor(callee *ssa.Function, consts map[int]bool, entry 
 	return s
 }
 
-func constArgs(cc *ssa.CallCommon, callee *ssa.Function) map[int]bool {
+func constArgs(cc *ssa.CallCommon, callee *ssa.Function, caller *lsSummary) map[int]bool {
 	out := map[int]bool{}
 	for i, a := range cc.Args {
 		if i >= len(callee.Params) {
@@ -381,6 +381,20 @@ func constArgs(cc *ssa.CallCommon, callee *ssa.Function) map[int]bool {
 		}
 		if b, ok := constBool(a); ok {
 			out[i] = b
+			continue
+		}
+		// a bool parameter of the caller whose value is known in this context
+		// and that is passed on unchanged
+		if caller != nil {
+			if p, ok := a.(*ssa.Parameter); ok {
+				for j, fp := range caller.key.fn.Params {
+					if fp == p {
+						if v, ok := caller.consts[j]; ok {
+							out[i] = v
+						}
+					}
+				}
+			}
 		}
 	}
 	return out
@@ -748,7 +762,7 @@ func (la *LockAnalysis) applyDeferred(s *lsSummary, d *ssa.Defer, ex lockset, ad
 		return
 	}
 	if callee := calleeFn(&d.Call); callee != nil && la.funcs[callee] {
-		cs := la.ctxFor(callee, constArgs(&d.Call, callee), ex, s, d.Pos())
+		cs := la.ctxFor(callee, constArgs(&d.Call, callee, s), ex, s, d.Pos())
 		if cs != nil {
 			for id, m := range cs.acq {
 				la.edge(s, ex, id, m, s.key.fn, d.Pos(), funcKey(callee))
@@ -854,7 +868,7 @@ func (la *LockAnalysis) handleCall(s *lsSummary, cc *ssa.CallCommon, ins ssa.Ins
 			continue
 		}
 		if isGo {
-			la.ctxFor(cal, constArgs(cc, cal), lockset{}, s, ins.Pos())
+			la.ctxFor(cal, constArgs(cc, cal, s), lockset{}, s, ins.Pos())
 			continue
 		}
 		entry := cur
@@ -863,7 +877,7 @@ func (la *LockAnalysis) handleCall(s *lsSummary, cc *ssa.CallCommon, ins ssa.Ins
 			// (lock identity is per type), analysed with an empty entry set
 			entry = lockset{}
 		}
-		cs := la.ctxFor(cal, constArgs(cc, cal), entry, s, ins.Pos())
+		cs := la.ctxFor(cal, constArgs(cc, cal, s), entry, s, ins.Pos())
 		if cs == nil {
 			continue
 		}
